@@ -297,6 +297,8 @@ async fn acquire_authority_lock_with_recovery(
     let deadline = std::time::Instant::now() + std::time::Duration::from_secs(2);
 
     loop {
+        #[cfg(rip_verif)]
+        rip_kernel::verif::point("auth.loop.iter", "");
         match AuthorityLockGuard::try_acquire(data_dir, workspace_root) {
             Ok(lock) => return Ok(lock),
             Err(err) => {
@@ -553,6 +555,8 @@ async fn stream_events(
     };
 
     let receiver = handle.subscribe();
+    #[cfg(rip_verif)]
+    rip_kernel::verif::point("stream.after_subscribe", &session_id);
     let past = handle.events_snapshot().await;
 
     let last_seq = past.last().map(|event| event.seq);
@@ -1271,6 +1275,8 @@ async fn thread_stream_events(
 ) -> impl IntoResponse {
     let store = state.engine.continuities();
     let receiver = store.subscribe();
+    #[cfg(rip_verif)]
+    rip_kernel::verif::point("stream.after_subscribe", &thread_id);
 
     let past = match store.replay_events(&thread_id) {
         Ok(events) => events,
@@ -1460,6 +1466,8 @@ async fn stream_task_events(
     };
 
     let receiver = handle.subscribe();
+    #[cfg(rip_verif)]
+    rip_kernel::verif::point("stream.after_subscribe", &task_id);
     let past = handle.events_snapshot().await;
 
     let last_seq = past.last().map(|event| event.seq);
